@@ -44,10 +44,10 @@ package main
 // big(), which for a folded 64-bit constant with bit 63 set (small, i64 < 0) is a
 // NEGATIVE big.Int: uint128(-uint64(5)) << 64 folds to 0x30000000000000000.  That
 // class (uintN, W1 = 64, W2 > 64, bit 63 of an inner result set, op2 one of the
-// six) is generated as soon as known_findings.json lists F6m (C12_GEN_F6M=1|0
-// overrides), and keyed F6m only when the folded result is exactly what the
-// committed code yields (c12CommittedWideBitop); anything else at the site keeps
-// the unlisted key.
+// six) is REPAIRED by mpa.Int.ubig() and is an ordinary part of the family (the
+// expected value is the circuit's); a failure is keyed F6m only when the folded
+// result is exactly what the DEFECTIVE code yielded (c12CommittedWideBitop), i.e.
+// when the defect returns; anything else at the site keeps the unlisted key.
 //
 // Correspondence: run_c12 (single-expression entry; casts of run-time values are
 // modelled by Fold.evalCast) must predict both variants.
@@ -382,7 +382,7 @@ func runC12Nest(c *Ctx) {
 			wp{127, 128}, wp{130, 64}, wp{129, 65}, wp{65, 63}, wp{64, 63}, wp{64, 33}, wp{33, 32}, wp{32, 32}, wp{128, 128})
 	}
 	sidesPer := c.N(1, 3)
-	genF6m := c12GenF6m()
+	genF6m := true // F6m is repaired: the class is an ordinary part of the family
 	genOverflow := os.Getenv("C12_GEN_NARROW_OVERFLOW") == "1"
 	nProg, nFail, nSkip, nNoInner, nF6m := 0, 0, 0, 0, 0
 	kNames := []string{"int", "uint"}
@@ -633,11 +633,6 @@ func runC12Nest(c *Ctx) {
 						}
 						var cm *committed
 						if f6m && op2 >= 5 && op2 <= 10 {
-							if !genF6m {
-								nSkip++
-								c.Hist("nest:skipped:F6m-not-listed-yet:" + opn)
-								continue
-							}
 							nF6m++
 							v, rej := c12CommittedWideBitop(op2, X, Y, 64, p.w2)
 							cm = &committed{v, rej}
